@@ -28,6 +28,8 @@ Ps == {RInt(-2), RInt(-1), RInt(2), R(1, 2)}
 Mags == {[v |-> v, e |-> e] : v \in Vs, e \in Es} \cup {[v |-> k, e |-> None] : k \in Ks}
 UnitPairs == {<<u, w>> : u \in {"m", "c:m", "k:m"}, w \in {"m", "c:m", "k:m"}}
              \cup {<<u, w>> : u \in {"g", "k:g"}, w \in {"g", "k:g"}}
+\* a bare number converts to (prefixed) radians - the documented number -> angle rule; "" stands for "no unit"
+AnglePairs == {<<"", "rad">>, <<"", "m:rad">>}
 DummyM == [v |-> ROne, e |-> None]
 
 \* num: how a plain number is written ("py": Python number / list, "np": numpy.float64 / ndarray, "-": none)
@@ -45,7 +47,10 @@ Expand(a) ==
   \cup {Scen("op", "pow", "m", a, DummyM, p, "-", "-") : p \in Ps}
   \cup {Scen("conv", "to", "q", a, DummyM, ROne, uw[1], uw[2]) : uw \in UnitPairs}
   \cup {Scen("qsum", op, "qq", a, b, ROne, uw[1], uw[2]) : op \in {"add", "sub"}, b \in Mags, uw \in UnitPairs}
-  \cup {Scen("query", "value", "q", a, DummyM, ROne, uw[1], uw[2]) : uw \in UnitPairs}
+  \cup {Scen("conv", "to", "q", a, DummyM, ROne, uw[1], uw[2]) : uw \in AnglePairs}
+  \cup {Scen("query", "value", "q", a, DummyM, ROne, uw[1], uw[2]) : uw \in UnitPairs \cup AnglePairs}
+  \* rebase() of a quantity written with two units of one dimension (u*w -> u2) is a linear conversion by F(w)/F(u)
+  \cup {Scen("rebase", "rebase", "q", a, DummyM, ROne, uw[1], uw[2]) : uw \in UnitPairs}
   \cup {Scen("qcons", "ctor", "q", a, DummyM, ROne, uw[1], uw[2]) : uw \in UnitPairs}
   \cup {Scen("qdiv", "div", "qq", a, b, ROne, uw[1], uw[2]) : b \in Mags, uw \in UnitPairs}
 
@@ -61,13 +66,17 @@ Next ==
 
 -----------------------------------------------------------------------------
 Exact == Source = "enum"
-FacRatio(u, w) == IF Exact THEN RDiv(UInfo[u].fac, UInfo[w].fac) ELSE ROne
-FacRatioT(u, w) == TDiv(TTab(u), TTab(w))
-SameDimU(u, w) == UInfo[u].dim = UInfo[w].dim
+FacOf(u) == IF u = "" THEN ROne ELSE UInfo[u].fac
+FacRatio(u, w) == IF Exact THEN RDiv(FacOf(u), FacOf(w)) ELSE ROne
+TabOf(u) == IF u = "" THEN TQ(ROne) ELSE TTab(u)
+FacRatioT(u, w) == TDiv(TabOf(u), TabOf(w))
+\* same dimension, or a bare number going to (milli)radians (the documented number -> radian rule; other angle units are
+\* not reachable from a bare number)
+SameDimU(u, w) == IF u = "" THEN w \in {"rad", "m:rad"} ELSE w # "" /\ UInfo[u].dim = UInfo[w].dim
 
 Class(s) ==
   CASE s.kind = "op" -> IF UnspecifiedM(s.op, s.a, s.b, s.p) THEN "unspecified" ELSE "ok"
-    [] s.kind \in {"conv", "qsum", "query", "qcons"} -> IF SameDimU(s.ua, s.ub) THEN "ok" ELSE "refused"
+    [] s.kind \in {"conv", "qsum", "query", "qcons", "rebase"} -> IF SameDimU(s.ua, s.ub) THEN "ok" ELSE "refused"
     [] s.kind = "qdiv" -> IF ~SameDimU(s.ua, s.ub) THEN "refused"
                           ELSE IF UnspecifiedM("div", s.a, s.b, s.p) THEN "unspecified" ELSE "ok"
 
@@ -77,6 +86,7 @@ Obs(s) ==
     [] s.kind = "qsum" -> QSumOb(s.a, s.b, FacRatio(s.ub, s.ua), FacRatioT(s.ub, s.ua), Exact)
     [] s.kind = "query" -> QueryOb(s.a)
     [] s.kind = "qcons" -> ConvOb(s.a, FacRatio(s.ua, s.ub), FacRatioT(s.ua, s.ub), Exact)
+    [] s.kind = "rebase" -> ConvOb(s.a, FacRatio(s.ub, s.ua), FacRatioT(s.ub, s.ua), Exact)
     [] s.kind = "qdiv" -> QDivOb(s.a, s.b, FacRatio(s.ua, s.ub), FacRatioT(s.ua, s.ub), Exact)
 
 Mach(s) ==
@@ -85,13 +95,14 @@ Mach(s) ==
     [] s.kind = "qsum" -> MQSumErr(s.a, s.b, FacRatio(s.ub, s.ua))
     [] s.kind = "query" -> s.a.e                                              \* value(w) builds a new Magnitude
     [] s.kind = "qcons" -> IF IsNone(s.a.e) THEN None ELSE RMul(s.a.e, FacRatio(s.ua, s.ub))   \* magnitude *= factor
+    [] s.kind = "rebase" -> IF IsNone(s.a.e) THEN None ELSE RMul(s.a.e, FacRatio(s.ub, s.ua))   \* magnitude *= factor
     [] s.kind = "qdiv" -> MQDivErr(s.a, s.b, FacRatio(s.ua, s.ub))
 
 FeatureTags(s) ==
   CASE s.kind = "op" -> Features(s.op, s.a, s.b, s.p)
     [] s.kind = "conv" -> IF s.ua # s.ub /\ Uncertain(s.a) THEN {"convert", "units_differ"} ELSE {"convert"}
     [] s.kind = "qsum" -> IF s.ua # s.ub /\ Uncertain(s.b) THEN {"mixed_units"} ELSE {}
-    [] s.kind \in {"query", "qcons", "qdiv"} -> IF s.ua # s.ub THEN {"units_differ"} ELSE {}
+    [] s.kind \in {"query", "qcons", "qdiv", "rebase"} -> IF s.ua # s.ub THEN {"units_differ"} ELSE {}
 
 \* deviation tags: computed on the exact model; in file mode the machine leaves the error unscaled whenever the
 \* units differ and the converted operand is uncertain (the factor is not known to TLC)
@@ -127,7 +138,7 @@ Lemmas ==
     /\ (sc.kind = "op" /\ sc.op = "mul" /\ IsNone(b.e) /\ Uncertain(a)) =>
           IdealOb("div", [v |-> RMul(a.v, b.v), e |-> obs[1].q], b, sc.p)[1].q = a.e
     \* the formulas of the code leave the ideal only by the sign of the error (first-order bounds hold for them)
-    /\ (sc.kind \in {"op", "query", "qcons", "qdiv"}) => DevTags(obs, Mach(sc), "machine_off_ideal") \subseteq {"error_sign"}
+    /\ (sc.kind \in {"op", "query", "qcons", "qdiv", "rebase"}) => DevTags(obs, Mach(sc), "machine_off_ideal") \subseteq {"error_sign"}
     /\ (sc.kind = "op" /\ "error_sign" \in Tags(sc)) => Features(sc.op, a, b, sc.p) # {}
     \* converting there and back restores the uncertainty; relative uncertainty is the absolute one over the value
     /\ (sc.kind = "conv" /\ Uncertain(a)) =>
